@@ -99,6 +99,12 @@ class MergeModel(object):
             if i not in self.out_objs.values():
                 raise Inconclusive('_Merger: output position %d is not a fresh container' % i)
         self.out_by_idx = dict((i, t) for t, i in self.out_objs.items())
+        # attribute of the merger that holds each output bucket (self.posargs, ...)
+        self.out_attrs = {}
+        for p, _ in self.ret_paths[:1]:
+            for e in p.effects:
+                if e.kind == 'store_attr' and e.args and e.args[0] in self.out_objs:
+                    self.out_attrs.setdefault(e.op, self.out_objs[e.args[0]])
 
     # -- unmatched keyword-only dictionaries ---------------------------------
     def _limbo(self):
@@ -401,6 +407,13 @@ class MergeModel(object):
             elif e.kind == 'raise':
                 out.append(('raise', self.interp._exc_name(e.target), e))
             elif e.kind == 'store_attr':
+                v0 = e.args[0]
+                init0 = self.interp.obj_init.get(v0)
+                if e.op in self.out_attrs and self.out_attrs[e.op] < 5 and v0[0] in ('L', 'D') and init0 is not None \
+                        and init0[0] == 'T' and not init0[1]:
+                    # the attribute holding an output bucket is rebound to a fresh empty container: what the bucket held
+                    # so far is dropped, exactly as by `bucket[:] = []`
+                    out.append(('clear', self.out_attrs[e.op], e))
                 out.append(('store', e.op, e.args[0], e))
         return out
 
